@@ -251,6 +251,10 @@ func (c *leafCtx) isValue(e ast.Expr) bool {
 		return c.isValue(x.X) || c.isValue(x.Y)
 	case *ast.SelectorExpr:
 		return c.isValue(x.X)
+	case *ast.IndexExpr:
+		return c.isValue(x.X)
+	case *ast.StarExpr:
+		return c.isValue(x.X)
 	case *ast.CallExpr:
 		if f, ok := x.Fun.(*ast.SelectorExpr); ok {
 			if id, ok := f.X.(*ast.Ident); ok && id.Name == "time" && f.Sel.Name == "Unix" {
@@ -399,6 +403,9 @@ func leanTypeName(t string) string {
 	}
 	if strings.HasPrefix(t, "L_") {
 		return "(List " + leanTypeName(strings.TrimPrefix(t, "L_")) + ")"
+	}
+	if strings.HasPrefix(t, "C_") {
+		return "(Go.Slice " + leanTypeName(strings.TrimPrefix(t, "C_")) + ")"
 	}
 	if strings.HasPrefix(t, "M:") {
 		parts := strings.Split(t, ":")
@@ -1290,6 +1297,11 @@ func structFields(c0 *leafCtx, structs map[string][][2]string, name string, st *
 			continue // pointers (shared, possibly cyclic state) are outside the subset
 		}
 		lt := c0.leanType(fl.Type)
+		if at, ok := fl.Type.(*ast.ArrayType); ok && at.Len == nil && len(fl.Names) == 1 && capFields[c0.dir+":"+name+"."+fl.Names[0].Name] {
+			if et := c0.leanType(at.Elt); et != "" { // a slice modelled with its capacity (leaf7.go)
+				lt = "C_" + et
+			}
+		}
 		if inner, ok := fl.Type.(*ast.StructType); ok && len(fl.Names) == 1 {
 			sub := name + "_" + fl.Names[0].Name
 			if subfs := structFields(c0, structs, sub, inner); len(subfs) > 0 {
